@@ -374,3 +374,111 @@ Lemma c06_example_hyps :
   wf true ex_anc = true /\ wf false ex_alpha = true /\ wf false ex_beta = true
   /\ phantom_free ex_alpha = true /\ phantom_free ex_beta = true.
 Proof. repeat split; vm_compute; reflexivity. Qed.
+
+(* ================================================================== *)
+(* 8. The reported (slim) form of a conflict                           *)
+(* ================================================================== *)
+
+Lemma wf_oslim : forall s e, wf s e = true -> wf s (oslim e) = true.
+Proof.
+  intros s [e|] H; [|reflexivity]. cbn [oslim option_map wf] in *.
+  destruct e as [c|x d|t| |msg|c]; cbn [slim]; try exact H.
+  - reflexivity.
+  - rewrite wf_entry_phantom in H. apply andb_true_iff in H as [H _]. apply andb_true_iff in H as [H _].
+    destruct s; [discriminate H|reflexivity].
+Qed.
+
+Lemma slim_change_valid : forall s ch, change_valid s ch = true -> change_valid s (slim_change ch) = true.
+Proof.
+  intros s ch H. unfold change_valid in *. cbn [slim_change cold cnew].
+  apply andb_true_iff in H as [H1 H2]. rewrite (wf_oslim _ _ H1), (wf_oslim _ _ H2). reflexivity.
+Qed.
+
+Lemma slim_paths : forall l, map cpath (map slim_change l) = map cpath l.
+Proof. intros l. rewrite map_map. apply map_ext. intros ch. reflexivity. Qed.
+
+Lemma map_not_nil : forall (A B : Type) (f : A -> B) (l : list A), l <> [] -> map f l <> [].
+Proof. intros A B f [|x l] H; [congruence|discriminate]. Qed.
+
+Lemma slim_conflict_wf : forall a b c, conflict_wf a b c -> conflict_wf a b (slim_conflict c).
+Proof.
+  intros a b c [H1 [H2 [H3 H4]]]. unfold conflict_wf. cbn [slim_conflict root alpha_changes beta_changes].
+  split; [apply map_not_nil; exact H1|]. split; [apply map_not_nil; exact H2|]. split; [|exact H4].
+  intros ch Hc. rewrite <- map_app in Hc. apply in_map_iff in Hc as [ch0 [<- Hc]].
+  destruct (H3 ch0 Hc) as [Hv Hp]. split; [apply slim_change_valid; exact Hv|exact Hp].
+Qed.
+
+Lemma slim_reported_ok : forall a b c, conflict_wf a b c -> reported_ok a b c (slim_conflict c).
+Proof.
+  intros a b c H. unfold reported_ok. cbn [slim_conflict root alpha_changes beta_changes].
+  rewrite !slim_paths. split; [reflexivity|]. split; [reflexivity|]. split; [reflexivity|].
+  exact (slim_conflict_wf a b c H).
+Qed.
+
+Lemma paths_eqb_eq : forall x y, paths_eqb x y = true <-> x = y.
+Proof.
+  induction x as [|p x IH]; intros [|q y]; cbn [paths_eqb]; split; intros H;
+    try reflexivity; try discriminate.
+  - apply andb_true_iff in H as [H1 H2]. apply path_eqb_eq in H1. apply IH in H2. congruence.
+  - injection H as -> ->. apply andb_true_iff. split; [apply path_eqb_eq; reflexivity|apply IH; reflexivity].
+Qed.
+
+Lemma reported_okb_spec : forall a b c s, reported_okb a b c s = true <-> reported_ok a b c s.
+Proof.
+  intros a b c s. unfold reported_okb, reported_ok.
+  rewrite !andb_true_iff, path_eqb_eq, !paths_eqb_eq, conflict_wfb_spec. tauto.
+Qed.
+
+Lemma all_reported_okb_spec : forall a b cs ss,
+  all_reported_okb a b cs ss = true <-> Forall2 (reported_ok a b) cs ss.
+Proof.
+  intros a b. induction cs as [|c cs IH]; intros [|s ss]; cbn [all_reported_okb]; split; intros H;
+    try constructor; try discriminate; try (inversion H; fail).
+  - apply andb_true_iff in H as [H _]. apply reported_okb_spec. exact H.
+  - apply andb_true_iff in H as [_ H]. apply IH. exact H.
+  - inversion H; subst. apply andb_true_iff. split; [apply reported_okb_spec; assumption|apply IH; assumption].
+Qed.
+
+Lemma check_c06_reported_sound : forall m anc a b pl ss,
+  check_c06_reported ((m, anc, a, b, pl), ss) = true ->
+  c06_prop a b pl /\ c06_reported_prop a b pl ss.
+Proof.
+  intros m anc a b pl ss H. cbn [check_c06_reported] in H. apply andb_true_iff in H as [H1 H2].
+  split; [apply check_c06_plan_spec; exact H1|apply all_reported_okb_spec; exact H2].
+Qed.
+
+Lemma reconcile_reported : forall m anc a b,
+  wf true anc = true -> wf false a = true -> wf false b = true ->
+  phantom_free a = true -> phantom_free b = true ->
+  c06_reported_prop a b (reconcile m anc a b) (map slim_conflict (conflicts (reconcile m anc a b))).
+Proof.
+  intros m anc a b Wn Wa Wb Pa Pb. unfold c06_reported_prop.
+  pose proof (reconcile_conflict_wf m anc a b Wn Wa Wb Pa Pb) as H. unfold c06_conflict_wf_prop in H.
+  induction (conflicts (reconcile m anc a b)) as [|c cs IH]; cbn [map]; constructor.
+  - apply slim_reported_ok. apply H. left. reflexivity.
+  - apply IH. intros c' Hc. apply H. right. exact Hc.
+Qed.
+
+Lemma reconcile_check_c06_reported : forall m anc a b,
+  wf true anc = true -> wf false a = true -> wf false b = true ->
+  phantom_free a = true -> phantom_free b = true ->
+  check_c06_reported ((m, anc, a, b, reconcile m anc a b),
+                      map slim_conflict (conflicts (reconcile m anc a b))) = true.
+Proof.
+  intros m anc a b Wn Wa Wb Pa Pb. cbn [check_c06_reported]. apply andb_true_iff. split.
+  - apply check_c06_plan_spec. apply reconcile_c06; assumption.
+  - apply all_reported_okb_spec. apply reconcile_reported; assumption.
+Qed.
+
+(* the seeded situation: one-way-replica, alpha and ancestor absent at a path
+   where beta holds a directory with untracked content; the raw conflict's
+   alpha side is the synthetic nil-to-nil change, which the reported form must
+   keep *)
+Definition ex_s_alpha : oentry := Some (EDir [("main", EFile false "d1")]).
+Definition ex_s_beta : oentry :=
+  Some (EDir [("data", EDir [("control.sock", EUntracked)]); ("main", EFile false "d1")]).
+
+Lemma c06_reported_example :
+  map slim_conflict (conflicts (reconcile OneWayReplica None ex_s_alpha ex_s_beta)) =
+  [mkc ["data"] [mk ["data"] None None] [mk ["data"; "control.sock"] None (Some EUntracked)]].
+Proof. vm_compute. reflexivity. Qed.
